@@ -121,8 +121,8 @@ class Nested:
         self.drain_frame = None
 
     def fire(self):
+        # (runs inside the trace function: Python does not trace what is called from here)
         self.fired = 1
-        sys.settrace(None)
         try:
             self.heap.free(self.victim)
         except NESTED_EXC as exc:
@@ -155,11 +155,23 @@ class Nested:
         return self.on_line
 
     def run(self, call):
-        sys.settrace(self.on_call)
+        ACTIVE[0] = self
         try:
             return call()
         finally:
-            sys.settrace(None)
+            ACTIVE[0] = None
+
+
+# sys.settrace is switched on once for the whole run (switching it per op re-instruments every code
+# object, which is slow); while no Nested is active no frame is traced
+ACTIVE = [None]
+
+
+def dispatch(frame, event, arg):
+    cur = ACTIVE[0]
+    if cur is None:
+        return None
+    return cur.on_call(frame, event, arg)
 
 
 def malloc_with_gc(heap, n, victim):
@@ -327,7 +339,10 @@ def run_case(c):
 if __name__ == '__main__':
     signal.signal(signal.SIGALRM, _on_alarm)
     cases = json.load(sys.stdin)
+    if any(op[0] in ('M', 'F') for c in cases for op in c.get('ops', [])):
+        sys.settrace(dispatch)
     outs = [run_case(c) for c in cases]
+    sys.settrace(None)
     bh.Arena = REAL_ARENA
     bh.mmap = real_mmap
     print(json.dumps(outs))
